@@ -23,7 +23,7 @@ def run(ctx):
     from mpmath import mp, mpf, gamma as G, pi
     mp.dps = 40
     ss = S.generate(ctx, 16 if ctx.quick else 120, 3 if ctx.quick else 6, max_e=6 if ctx.quick else 7,
-                    max_loops=3 if ctx.quick else 4, routings_per_graph=1, kinds=("uniform", "uniform", "corner"))
+                    max_loops=3 if ctx.quick else 4, routings_per_graph=1, kinds=("uniform", "uniform", "corner"), scales=(1, 1, 1, Fraction(1, 2 ** 33), 2 ** 30))
     S.run(ss)
     SC.corr_sample(ctx, ss, fields=("uTrop", "vTrop", "jac"))
     for s in ss:
